@@ -5,6 +5,7 @@ import (
 	"encoding/json"
 	"fmt"
 	"math/rand"
+	"os"
 	"strings"
 	"time"
 )
@@ -1022,5 +1023,39 @@ func generate(seed int64, n int) []*Case {
 	for i := 0; i < n/6; i++ {
 		res = append(res, poolCase(r, n+n*5/2+1000+4*n+i))
 	}
+	decoratePool(seed, res)
 	return res
+}
+
+// decoratePool gives a share of the generated requests a SMALL connection pool (database/sql SetMaxOpenConns on the pool
+// behind the real wrapper; production: max_open_connection): 1 for about a quarter of them (half of the TraceQL
+// searches, whose complexity evaluation is followed by further statements), 2 for a few. A request that asks for a
+// connection while an open result set of its own still holds one can only be seen with the pool exhausted. The draws come
+// from a stream of their own, so the requests themselves are the ones generated before pools were varied.
+func decoratePool(seed int64, cases []*Case) {
+	if os.Getenv("READFUZZ_MAXCONNS") != "" {
+		var k int
+		fmt.Sscan(os.Getenv("READFUZZ_MAXCONNS"), &k)
+		for _, c := range cases {
+			c.MaxConns = k
+			for _, st := range c.Then {
+				st.MaxConns = k
+			}
+		}
+		return
+	}
+	r := rand.New(rand.NewSource(seed ^ 0x706f6f6c))
+	for _, c := range cases {
+		k := r.Intn(16)
+		heavy := strings.HasPrefix(c.Class, "fwd/tempo_traceql") || strings.HasPrefix(c.Class, "fwd/tempo_tags_v2") || strings.HasPrefix(c.Class, "fwd/tempo_values_v2")
+		switch {
+		case k < 4 || (heavy && k < 8):
+			c.MaxConns = 1
+		case k == 8:
+			c.MaxConns = 2
+		}
+		for _, st := range c.Then {
+			st.MaxConns = c.MaxConns
+		}
+	}
 }
